@@ -61,6 +61,7 @@ partial def decStmt : Sx → Option Stmt
   | .list [.atom "modprobe", .str a, ns] => do pure (.modProbe a (← decStrs ns))
   | .list [.atom "modprint", .str a] => some (.modPrint a)
   | .list [.atom "nameprobe", ns] => do pure (.nameProbe (← decStrs ns))
+  | .list [.atom "block", .str b, sc, body] => do pure (.block b (← sc.toBool?) (← decBody body))
   | _ => none
 partial def decBody : Sx → Option (List Stmt)
   | .list xs => Sx.mapM? decStmt xs
